@@ -38,3 +38,17 @@ var commonTrusted = []string{
 	"go/types, go/ssa (SSA construction, dominator tree) of golang.org/x/tools v0.50.0",
 	"Go memory model: accesses ordered by one mutex do not race",
 }
+
+// include runs another rule function on a scratch context and records its
+// obligations in c under rule id `as` (the original id is kept in the site),
+// so that a property whose statement depends on another property's mechanism
+// also reports a break of that mechanism under its own id.
+func include(c *eng.Ctx, as string, run func(*eng.Ctx)) {
+	sub := eng.NewCtx(c.P, c.Prop)
+	run(sub)
+	for _, o := range sub.Obs {
+		o.Site = "[" + o.Rule + "] " + o.Site
+		o.Rule = as
+		c.Obs = append(c.Obs, o)
+	}
+}
